@@ -282,6 +282,15 @@ class ConfigParser(object):
         return value
     self._raise_syntax_error('Unable to parse value.')
 
+  def expect_end_of_input(self):
+    """Raises a `SyntaxError` unless only whitespace and comments remain."""
+    self._skip([
+        tokenize.COMMENT, tokenize.NL, tokenize.NEWLINE, tokenize.INDENT,
+        tokenize.DEDENT
+    ])
+    if self._current_token.type != tokenize.ENDMARKER:
+      self._raise_syntax_error('Expected end of input.')
+
   def _advance_one_token(self):
     self._current_token = next(self._token_generator)
     # Certain symbols (e.g., "$") cause ERRORTOKENs on all preceding space
